@@ -34,5 +34,6 @@ type Proclaim struct {
 
 // Call the function with the arguments provided.
 func (f *Proclaim) Call(s *slip.Scope, args slip.List, depth int) slip.Object {
+	slip.CheckArgCount(s, depth, f, args, 1, 1)
 	return slip.Novalue
 }
